@@ -966,6 +966,36 @@ def add_lookup_gadget(rnd, spec):
     spec['lookup_gadget'] = out
 
 
+def add_branch_gadget(rnd, spec):
+    """a formula that takes one of several branches depending on an input; each branch is a
+    formula cell nobody else reads (row 60 of the first formula sheet): whatever calculates
+    only the branch that is taken leaves the others uncalculated"""
+    sheet = next(s_ for s_ in spec['sheets'] if s_ != spec.get('data_sheet'))
+    cells = spec['cells']
+    sw, base = mk(sheet, 60, 1), mk(sheet, 60, 2)
+    cells.append({'a': sw, 'v': rnd.choice((1, -1, 2, 0)), 'w': [1, -1, 0, 2, 3, -3]})
+    cells.append({'a': base, 'v': rnd.choice((3, 0.5, 7))})
+    spec.setdefault('pinned', []).append(base)
+    b1, b2, b3 = mk(sheet, 60, 3), mk(sheet, 60, 4), mk(sheet, 60, 5)
+    cells.append({'a': b1, 'f': '=B60*2', 'p': [base], 'd': []})
+    cells.append({'a': b2, 'f': '=B60+10', 'p': [base], 'd': []})
+    cells.append({'a': b3, 'f': '=C60+D60', 'p': [b1, b2], 'd': []} if rnd.random() < 0.5 else
+                 {'a': b3, 'f': '=B60-100', 'p': [base], 'd': []})
+    out = []
+    forms = [('=IF(A60>0,C60,D60)', [sw, b1, b2]),
+             ('=IF(A60>0,1,E60)+A60', [sw, b3]),
+             ('=CHOOSE(ABS(A60)+1,C60,D60,E60,C60)', [sw, b1, b2, b3]),
+             ('=IFERROR(1/A60,E60)', [sw, b3]),
+             ('=IF(A60=0,D60,IF(A60>1,E60,C60))', [sw, b1, b2, b3])]
+    rnd.shuffle(forms)
+    for i, (f, p) in enumerate(forms[:rnd.choice((1, 2, 3))]):
+        a = mk(sheet, 60, 6 + i)
+        cells.append({'a': a, 'f': f, 'p': p, 'd': []})
+        out.append(a)
+    spec.setdefault('gadget', []).extend(out)
+    spec['branch_gadget'] = {'outputs': out, 'switch': sw}
+
+
 def add_long_chain_gadget(rnd, spec):
     """a running balance: a column of several hundred cells, each calculated from the one above
     (sheet Bal).  Deep structures, shallow evaluations: the harness evaluates it in address
